@@ -94,7 +94,7 @@ def chain_tags(case, before, o, n, is_del=False):
     defect triggers it contains."""
     tags = set()
     if is_del and n in case["classes"][case["objs"][o]["cls"]].get("unlisten", []):
-        tags.add("not-listenable")        # the recorded defect concerns deletion only
+        tags.add("not-listenable")        # the (repaired) defect F20/F29 concerned deletion only
     origin_prefix = case["classes"][case["objs"][o]["cls"]]["prefix"]
     hop = 0
     for _ in range(8):
@@ -352,14 +352,16 @@ def corpus():
                         ["Set", 2, [X, ITEMS], 14], ["Set", 2, [A], 15], ["Set", 0, [X, ITEMS], 16], ["Del", 2, [A]],
                         ["Set", 0, [X, ITEMS], 17], ["Set", 2, [PARENT], {"obj": 1}], ["Set", 1, [X, ITEMS], 18],
                         ["Set", 2, [R, ITEMS], 19]]))
-    # finding: del of a PrototypedFrom(..., listenable=False) attribute raises KeyError (with and without a local value)
+    # F20/F29 (repaired by fcaa594): del of a PrototypedFrom(..., listenable=False) attribute raised KeyError (with and
+    # without a local value); it is an ordinary delete
     ch_nl = dict(prefix=[PRE_], unlisten=[[X], [Y]],
                  traits=[[[PARENT], ["Link"]], [[X], ["Deleg", [PARENT], ["Same"], False]],
                          [[Y], ["Deleg", [PARENT], ["Explicit", [X]], True]], [[A], ["Deleg", [PARENT], ["Explicit", [X]], False]]])
     cs.append(dict(classes=[par_a, ch_nl], objs=objs,
                    ops=[["Set", 0, [X], 5], ["Set", 2, [X], 9], ["Set", 0, [X], 6], ["Del", 2, [X]], ["Del", 2, [X]],
                         ["Set", 2, [Y], 7], ["Set", 2, [A], 3], ["Del", 2, [A]], ["Set", 0, [X], 8]]))
-    # finding: class-prefix rule at the second hop is applied with the ORIGIN's class prefix when writing
+    # F17/F28 (repaired by 2e526b5): the class-prefix rule at the second hop was applied with the ORIGIN's class prefix
+    # when writing
     mid = dict(prefix=[Q_], traits=[[[PARENT], ["Link"]], [[B], ["Deleg", [PARENT], ["Class"], True]],
                                     [[R], ["Deleg", [PARENT], ["Same"], False]]])
     top = dict(prefix=[PRE_], traits=[[[PARENT], ["Link"]], [[A], ["Deleg", [PARENT], ["Explicit", [B]], True]],
